@@ -134,11 +134,12 @@ def run_fn(fname, code):
             except CapSite as cs:
                 sites += 1
                 n = cs.n
-                want = ["in_len"] + sorted(k for k in sol.decls if k.startswith("hx_wire"))
+                wsyms = [k for k in it.path_syms if k.startswith("hx_wire")]
+                want = ["in_len"] + wsyms
                 r, m = sol.check(it.pc + ["(bvugt %s in_len)" % n.s, "(bvugt %s (_ bv65536 64))" % n.s], want_model=want)
                 if r == "sat" and "L" not in seen:
                     seen.add("L")
-                    wire = [m[k] for k in sorted((k for k in m if k.startswith("hx_wire")), key=lambda x: int(x.split("_")[-1]))]
+                    wire = [m.get(k, 0) for k in wsyms]
                     ok, rr = replay(fname, m.get("in_len", 0), wire)
                     failures.append({"kind": "assert", "label": "L:capacity_request_exceeds_what_the_input_can_justify", "prop": name, "function": fname,
                                      "desc": "%s on %d input bytes with wire fields %s requests capacity beyond the input and beyond 65536 elements" % (fname, m.get("in_len", 0), wire),
